@@ -226,6 +226,14 @@ def _zero_sized(world, pre_blocks, pre_order=None):
                 nxt_code = j + 1 < len(po) and po[j + 1][1]
                 prv_code = j > 0 and po[j - 1][1]
                 pre_incoming = po[j][3]
+                # (control flow into blocks right in front that were deleted
+                # as a whole earlier in this session had slid onto this block
+                # by the time it was deleted, whatever became of it later)
+                live_now = {x.uuid for x in bl}
+                k = j - 1
+                while k >= 0 and po[k][0] not in live_now and po[k][1]:
+                    pre_incoming = pre_incoming or po[k][3]
+                    k -= 1
             ok = False
             if any(True for _ in b.references) and not [x for x in others if x.uuid in pre_blocks]:
                 # (blocks made during the session - alignment padding in
